@@ -263,7 +263,18 @@ func OnceDo(o *sync.Once, f func(), site string) {
 		t.waitOnce = unsafe.Pointer(o)
 		t.park(stDisabled, site)
 	}
-	s.onceBusy = append(s.onceBusy, onceEntry{unsafe.Pointer(o), t})
+	held := false
+	for i := range t.inOnce {
+		if t.inOnce[i] == nil {
+			t.inOnce[i] = unsafe.Pointer(o)
+			held = true
+			break
+		}
+	}
+	if !held {
+		raceEnable()
+		panic("simrt: once nesting deeper than 8")
+	}
 	raceEnable()
 	defer onceRelease(s, t, unsafe.Pointer(o))
 	o.Do(f)
@@ -271,9 +282,14 @@ func OnceDo(o *sync.Once, f func(), site string) {
 
 //go:norace
 func (s *Sim) onceHeld(o unsafe.Pointer, me *Task) bool {
-	for _, e := range s.onceBusy {
-		if e.o == o && e.t != me {
-			return true
+	for _, w := range s.tasks {
+		if w == me {
+			continue
+		}
+		for i := range w.inOnce {
+			if w.inOnce[i] == o {
+				return true
+			}
 		}
 	}
 	return false
@@ -282,9 +298,9 @@ func (s *Sim) onceHeld(o unsafe.Pointer, me *Task) bool {
 //go:norace
 func onceRelease(s *Sim, t *Task, o unsafe.Pointer) {
 	raceDisable()
-	for i, e := range s.onceBusy {
-		if e.o == o && e.t == t {
-			s.onceBusy = append(s.onceBusy[:i], s.onceBusy[i+1:]...)
+	for i := len(t.inOnce) - 1; i >= 0; i-- {
+		if t.inOnce[i] == o {
+			t.inOnce[i] = nil
 			break
 		}
 	}
